@@ -229,6 +229,13 @@ def run(repo, rep):
     rule_dispatch(repo, rep, gen, api)
     rule_checks(repo, rep, gen)
     rule_stop(repo, rep, gen)
+    # waits precede the operation they guard: the wait computation and its emission order are decided by C04's rules
+    rep.clause("C06-i", "the waits computed for an operation follow the hardware queue model for every queue configuration [rule shared with C04-d]")
+    rep.clause("C06-j", "waits and BLOCKDEP are emitted before the NPU_OP they guard [rule shared with C04-e]")
+    from . import c04
+
+    with rep.borrow({"C04-d": "C06-i", "C04-e": "C06-j"}):
+        c04.run(repo, rep)
 
 
 # ------------------------------------------------------------------ a, b: tables
